@@ -58,7 +58,7 @@ class Ob:
             + "import sys\nsys.path.insert(0, %r)\n" % VERIF
             + self.header.rstrip() + "\n\n\n"
             + "def body(%s):\n%s\n\n\n" % (self.sig, self.body.rstrip())
-            + "from vf.hlib import reset_global_state as _vf_reset\n_vf_reset()      # snapshot of rtflite's process-global state\n\n\n"
+            + "from vf.hlib import swapped  # noqa: F401\nfrom vf.hlib import reset_global_state as _vf_reset\n_vf_reset()      # snapshot of rtflite's process-global state\n\n\n"
             + "def prop(%s) -> bool:\n%s    _vf_reset()\n    return body(%s)\n\n\n" % (self.sig, doc, names)
             + "def twin(%s) -> bool:\n%s    _vf_reset()\n    body(%s)\n    return False\n" % (self.sig, doc, names)
         )
